@@ -53,6 +53,7 @@ uint64_t vs_now_ns(void) { struct timespec t; clock_gettime(CLOCK_MONOTONIC, &t)
 int vs_self(void) { return 0; }
 int vs_active(void) { return 1; }
 int vs_thread_count(void) { return NTH + 1; }
+int vs_live_threads(void) { return 1; }
 unsigned vs_sleeps_of(int t) { (void)t; return 1000000; }
 unsigned vs_steps(void) { return 0; }
 int vs_choose(int n) { (void)n; return (int)vs_param("choice", 0); }
